@@ -76,7 +76,12 @@ func VerifC14Restart(h *verifh.H) {
 	nops := h.Param("ops", 2)
 	recreatedA := false
 	for k := 0; k < nops; k++ {
-		switch h.Choice("op", h.Param("opKinds", 8)) {
+		switch h.Choice("op", h.Param("opKinds", 9)) {
+		case 8: // a READ addressed with a full URI in a namespace the hub has never seen (lookup by
+			// URI, query start point): whatever prefix that hands out is part of the namespaces answer
+			_, err := hs.hub.Store.GetEntity("http://example.com/r"+itoa(k)+"/thing", nil, true)
+			h.Assert(err == nil, "lookup by full URI answered")
+			_, _ = hs.hub.Store.GetManyRelatedEntitiesBatch([]string{"http://example.com/q" + itoa(k) + "/start"}, "*", false, nil, 0, true)
 		case 6: // the dataset known as a is renamed
 			if cur == "" {
 				h.Assume(false)
